@@ -119,9 +119,12 @@ def segment(draw):
         if draw(st.integers(0, 2)) == 0:  # ... with a process started in between (lock/cache migration)
             return [x, {"op": "proc_start"}, {"op": t}, x]
         return [x, {"op": t}, x]
-    if k == 8:  # compute -> resize -> recompute -> resize back -> recompute
-        w = draw(win_st())
-        return [x, {"op": "resize", "win": w}, x]
+    if k == 8:  # compute at A -> resize to B -> recompute -> back to A's size in cells with other pixel sizes -> recompute
+        wa, wb = draw(win_st()), draw(win_st())
+        if draw(st.booleans()):
+            wb = wb[:2] + [0, 0]  # often a size at which the cell size cannot be determined without a query
+        px = draw(st.sampled_from([[0, 0], [600, 400], [1200, 900], [640, 480], [60, 30]]))
+        return [{"op": "resize", "win": wa}, x, {"op": "resize", "win": wb}, x, {"op": "resize", "win": wa[:2] + px}, x]
     return [{"op": "ratio_dynamic"}, {"op": "get_ratio"}, {"op": "resize", "win": draw(win_st())}, {"op": "get_ratio"}]
 
 
